@@ -255,7 +255,7 @@ pub fn gen_case(seed: u64, k: u64) -> Case {
         // (14 and 24: deep enough for a parser that backtracks exponentially in the depth to pass its budget,
         // shallow enough for every stack)
         let depth = *rng.pick(&[14usize, 24, 24, 40, 400, 3_000, 40_000]);
-        let kind = rng.below(17);
+        let kind = rng.below(19);
         let (open, mid, close): (&str, &str, &str) = match kind {
             0 => ("(", "1", ")"),
             1 => ("{", " nop ", "}"),
@@ -285,7 +285,25 @@ pub fn gen_case(seed: u64, k: u64) -> Case {
         } else {
             ""
         };
-        let nested = format!("{}{}{}{}\n", prefix, open.repeat(depth), mid, close.repeat(depth));
+        let nested = if kind >= 17 {
+            // nested AND long: every level of parentheses (or call arguments) carries a chain of its own, each chain
+            // shorter than any limit on a single chain, the whole far longer
+            let levels = match depth {
+                14 => 2,
+                24 => 4,
+                40 => 8,
+                400 => 32,
+                _ => 60,
+            };
+            let chain = "+1".repeat(1000);
+            let mut e = format!("1{}", chain);
+            for _ in 0..levels {
+                e = if kind == 17 { format!("({}){}", e, chain) } else { format!("max({}, 2){}", e, chain) };
+            }
+            format!(".byte {}\n", e)
+        } else {
+            format!("{}{}{}{}\n", prefix, open.repeat(depth), mid, close.repeat(depth))
+        };
         let target = names[rng.below(names.len())].to_string();
         if let Some(f) = project.files.get_mut(&target) {
             f.extend_from_slice(nested.as_bytes());
